@@ -54,7 +54,10 @@ func playPassiveHand(cfg *Cfg, otherRanking bool) {
 	if g.Start() != nil {
 		return
 	}
-	pinDeck(g.GetState(), cfg)
+	if otherRanking {
+		// same deck order: anything keyed by cards collides
+		pinDeck(g.GetState(), cfg)
+	} // else: its own shuffle - anything shared with this hand's deck shows
 	for k := 0; k < 400; k++ {
 		gs := g.GetState()
 		switch gs.Status.CurrentEvent {
@@ -148,8 +151,8 @@ func (r *run) twinCheck() {
 	steps := make([]sim.Step, 0, len(r.steps))
 	a := make([]string, 0, len(r.steps))
 	for i, st := range r.steps {
-		if st.Actor == "server" {
-			continue // neighbour hands are not part of this hand
+		if st.Actor == "server" || st.Actor == "sim" {
+			continue // neighbour hands and markers are not part of this hand
 		}
 		steps = append(steps, st)
 		if i < len(r.twinA) {
